@@ -334,11 +334,11 @@ Proof.
     + eapply handle_event_orphan; eauto.
 Qed.
 
-(* ---------- transmit and the timer ------------------------------------------------------------------- *)
-Lemma transmit_frame : forall s gt e, futs (transmit s gt e) = futs s /\ cwait (transmit s gt e) = cwait s /\
-                                      pings (transmit s gt e) = pings s.
+(* ---------- transmit_core and the timer ------------------------------------------------------------------- *)
+Lemma transmit_frame : forall s gt e, futs (transmit_core s gt e) = futs s /\ cwait (transmit_core s gt e) = cwait s /\
+                                      pings (transmit_core s gt e) = pings s.
 Proof.
-  intros. unfold transmit. destruct (timer s); [destruct (negb (oz_eqb (timer_at s) gt))|]; destruct gt; simpl; auto.
+  intros. unfold transmit_core. destruct (timer s); [destruct (negb (oz_eqb (timer_at s) gt))|]; destruct gt; simpl; auto.
 Qed.
 
 Lemma transmit_soon_frame : forall s, futs (transmit_soon s) = futs s /\ cwait (transmit_soon s) = cwait s /\
@@ -361,23 +361,23 @@ Definition TimerOk (s : st) : Prop :=
   ltimers s = match timer s with Some w => [w] | None => [] end /\
   (forall w, timer s = Some w -> timer_at s = Some w).
 
-Lemma transmit_timer : forall s gt e, TimerOk s -> TimerOk (transmit s gt e).
+Lemma transmit_timer : forall s gt e, TimerOk s -> TimerOk (transmit_core s gt e).
 Proof.
-  intros s gt e [L T]. unfold TimerOk, transmit. destruct (timer s) as [w|] eqn:Tm.
+  intros s gt e [L T]. unfold TimerOk, transmit_core. destruct (timer s) as [w|] eqn:Tm.
   - rewrite (T w eq_refl). rewrite L. destruct (oz_eqb (Some w) gt) eqn:E; simpl.
     + apply oz_eqb_eq in E. subst gt. simpl. split; [reflexivity|]. intros; congruence.
     + rewrite Z.eqb_refl. destruct gt as [g|]; simpl; split; try reflexivity; intros; congruence.
   - rewrite L. destruct gt as [g|]; simpl; split; try reflexivity; intros; congruence.
 Qed.
 
-(* a pending transmit is never lost: while _transmit_task is set or written data has not been passed
-   to transmit(), the loop holds a call_soon(transmit) handle *)
+(* a pending transmit_core is never lost: while _transmit_task is set or written data has not been passed
+   to transmit_core(), the loop holds a call_soon(transmit_core) handle *)
 Definition SoonOk (s : st) : Prop :=
   (ttask s = true -> soon s <> O) /\ (dirty s = true -> soon s <> O).
 
-Lemma transmit_soonok : forall s gt e, SoonOk (transmit s gt e).
+Lemma transmit_soonok : forall s gt e, SoonOk (transmit_core s gt e).
 Proof.
-  intros. unfold SoonOk, transmit.
+  intros. unfold SoonOk, transmit_core.
   destruct (timer s); [destruct (negb (oz_eqb (timer_at s) gt))|]; destruct gt; simpl; split; discriminate.
 Qed.
 
@@ -447,8 +447,21 @@ Qed.
 Ltac ne_code := let X := fresh in
   unfold R_INVALID, X_INVALID_STATE, X_TIMER_NONE, X_ALREADY_AWAITING, X_CONNECTION_ERROR; intros X; inversion X.
 
+Lemma transmit_closed : forall s gt e, closed (transmit_core s gt e) = closed s.
+Proof.
+  intros. unfold transmit_core. destruct (timer s); [destruct (negb (oz_eqb (timer_at s) gt))|]; destruct gt; reflexivity.
+Qed.
+Lemma transmit_soon_closed : forall s, closed (transmit_soon s) = closed s.
+Proof. intros. unfold transmit_soon. destruct (ttask s); reflexivity. Qed.
+Lemma transmit_dirty : forall s gt e, dirty (transmit_core s gt e) = false.
+Proof.
+  intros. unfold transmit_core. destruct (timer s); [destruct (negb (oz_eqb (timer_at s) gt))|]; destruct gt; reflexivity.
+Qed.
+
 (* ---------- steps ----------------------------------------------------------------------------------- *)
 Definition Good (s : st) : Prop := Inv s /\ TimerOk s /\ SoonOk s.
+Definition IT (s : st) : Prop := Inv s /\ TimerOk s.
+Definition Qcodes (x : option Z) : Prop := x <> Some X_INVALID_STATE /\ x <> Some X_TIMER_NONE.
 
 Lemma memz_in : forall l w, memz w l = true <-> In w l.
 Proof.
@@ -456,118 +469,194 @@ Proof.
   rewrite orb_true_iff, IH. split; intros [H|H]; auto; left; lia.
 Qed.
 
-Lemma step_good : forall s o x out s', Good s -> step s o = (x, out, s') ->
-  x <> Some X_INVALID_STATE /\ x <> Some X_TIMER_NONE /\ Good s'.
+(* a step = prepare ; [_process_events()] ; transmit_core ; [with the F4 repair: _process_events()] *)
+Lemma step_unfold : forall fx s o, step fx s o =
+  match prepare s o with
+  | PDone x extra s0 => (x, extra, s0)
+  | PGo extra s0 pe gt etx =>
+      match (if pe then process_events s0 else (None, s0)) with
+      | (Some x, s1) => (Some x, extra, s1)
+      | (None, s1) =>
+          if fx then let '(x2, s3) := process_events (transmit_core s1 gt etx) in (x2, extra, s3)
+          else (None, extra, transmit_core s1 gt etx)
+      end
+  end.
 Proof.
-  intros s o x out s' [I [TO SO]] H. destruct o; simpl in H.
-  - (* recv *)
-    destruct (process_events (with_evq s (evq s ++ evs))) as [[y|] s1] eqn:E; inv_pair H.
-    + unfold process_events in E. pose proof (process_frame2 _ _ _ _ E) as F. simpl in F.
-      destruct (process_inv _ _ _ _ (proj2 (with_evq_inv s _) I) E) as [A B].
-      split; [exact A|]. split.
-      * eapply process_no_timer_none; exact E.
-      * split; [exact B|]. destruct F as [F1 [F2 [F3 [F4 [F5 F6]]]]].
-        unfold TimerOk, SoonOk in *. rewrite F1, F2, F3, F4, F5, F6. tauto.
-    + unfold process_events in E. pose proof (process_frame2 _ _ _ _ E) as F. simpl in F.
-      destruct (process_inv _ _ _ _ (proj2 (with_evq_inv s _) I) E) as [A B].
-      split; [discriminate|]. split; [discriminate|].
-      destruct (transmit_frame s1 gt evs_tx) as [T1 [T2 T3]].
-      split; [apply (frame_inv s1 _ T1 T2 T3); assumption|].
-      split; [|apply transmit_soonok]. apply transmit_timer.
-      destruct F as [F1 [F2 [F3 _]]]. unfold TimerOk in *. rewrite F1, F2, F3. assumption.
+  intros. unfold step, run_plan, proc0. destruct (prepare s o) as [x extra s0|extra s0 pe gt etx]; [reflexivity|].
+  destruct pe.
+  - destruct (process_events s0) as [[x|] s1]; [reflexivity|]. destruct fx; [|reflexivity].
+    destruct (process_events (transmit_core s1 gt etx)) as [x2 s3]. reflexivity.
+  - destruct fx; [|reflexivity]. destruct (process_events (transmit_core s0 gt etx)) as [x2 s3]. reflexivity.
+Qed.
+
+(* whatever _process_events() and transmit_core keep, every step keeps -- for both values of fx *)
+Lemma step_via : forall (P : st -> Prop) (Q : option Z -> Prop),
+  (forall s x s', P s -> process_events s = (x, s') -> P s' /\ Q x) ->
+  (forall s gt e, P s -> P (transmit_core s gt e)) ->
+  Q None ->
+  forall fx s o x out s',
+    match prepare s o with PDone x0 _ s0 => P s0 /\ Q x0 | PGo _ s0 _ _ _ => P s0 end ->
+    step fx s o = (x, out, s') -> P s' /\ Q x.
+Proof.
+  intros P Q HP HT QN fx s o x out s' PR H. rewrite step_unfold in H.
+  destruct (prepare s o) as [x0 extra s0|extra s0 pe gt etx].
+  - inv_pair H. exact PR.
+  - assert (forall s1, P s1 ->
+              (if fx then let '(x2, s3) := process_events (transmit_core s1 gt etx) in (x2, extra, s3)
+               else (None, extra, transmit_core s1 gt etx)) = (x, out, s') -> P s' /\ Q x) as K.
+    { intros s1 P1 H1. destruct fx.
+      - destruct (process_events (transmit_core s1 gt etx)) as [x2 s3] eqn:E2. inv_pair H1.
+        eapply HP; [|exact E2]. apply HT. exact P1.
+      - inv_pair H1. split; [apply HT; exact P1|exact QN]. }
+    destruct pe.
+    + destruct (process_events s0) as [[y|] s1] eqn:E.
+      * inv_pair H. eapply HP; eauto.
+      * apply (K s1); [|exact H]. eapply HP; eauto.
+    + apply (K s0); assumption.
+Qed.
+
+Lemma process_events_it : forall s x s', IT s -> process_events s = (x, s') -> IT s' /\ Qcodes x.
+Proof.
+  intros s x s' [I TO] E. unfold process_events in E.
+  pose proof (process_frame2 _ _ _ _ E) as [F1 [F2 [F3 _]]].
+  destruct (process_inv _ _ _ _ I E) as [A B].
+  split; [split; [exact B|unfold TimerOk in *; rewrite F1, F2, F3; exact TO]|].
+  split; [exact A|eapply process_no_timer_none; exact E].
+Qed.
+
+Lemma transmit_core_it : forall s gt e, IT s -> IT (transmit_core s gt e).
+Proof.
+  intros s gt e [I TO]. destruct (transmit_frame s gt e) as [T1 [T2 T3]].
+  split; [apply (frame_inv s _ T1 T2 T3); exact I|apply transmit_timer; exact TO].
+Qed.
+
+Lemma ping_inv : forall s uid, Inv s ->
+  Inv (with_pings (with_futs s (futs s ++ [FPending])) (ping_set uid (length (futs s)) (pings s))).
+Proof.
+  intros s uid [ND P].
+  assert (forall j, In j (refs s) -> (j < length (futs s))%nat) as LT.
+  { intros j Hj. apply P in Hj. apply nth_error_Some. congruence. }
+  unfold Inv, refs in *. simpl. split.
+  + apply NoDup_app_remove_l in ND as ND2.
+    assert (~ In (length (futs s)) (map snd (pings s))) as NI.
+    { intros X. assert (length (futs s) < length (futs s))%nat; [apply LT; apply in_or_app; auto|lia]. }
+    destruct (cwait s) as [c|]; simpl in *; [|apply ping_set_nodup; assumption].
+    inversion ND as [|? ? N1 N2]; subst. constructor; [|apply ping_set_nodup; assumption].
+    intros X. apply ping_set_in in X. destruct X as [X|X]; [|tauto].
+    assert (c < length (futs s))%nat by (apply LT; auto). lia.
+  + intros j Hj. apply in_app_or in Hj. destruct Hj as [Hj|Hj].
+    * rewrite nth_error_app1; [apply P; apply in_or_app; auto|apply LT; apply in_or_app; auto].
+    * apply ping_set_in in Hj. destruct Hj as [->|Hj].
+      -- rewrite nth_error_app2 by lia. rewrite Nat.sub_diag. reflexivity.
+      -- rewrite nth_error_app1; [apply P; apply in_or_app; auto|apply LT; apply in_or_app; auto].
+Qed.
+
+Lemma prepare_it : forall s o, IT s ->
+  match prepare s o with PDone x0 _ s0 => IT s0 /\ Qcodes x0 | PGo _ s0 _ _ _ => IT s0 end.
+Proof.
+  intros s o [I TO]. destruct o; simpl.
+  - (* recv *) split; [apply with_evq_inv; exact I|exact TO].
   - (* timer *)
-    destruct (memz w (ltimers s)) eqn:M; simpl in H.
-    2:{ inv_pair H. split; [ne_code|split; [ne_code|exact (conj I (conj TO SO))]]. }
+    destruct (memz w (ltimers s)) eqn:M; simpl.
+    2:{ split; [exact (conj I TO)|split; ne_code]. }
     apply memz_in in M. destruct TO as [L T]. destruct (timer s) as [w'|] eqn:Tm; [|rewrite L in M; destruct M].
-    rewrite L in M. destruct M as [->|[]]. rewrite (T w eq_refl) in H. rewrite L in H. simpl in H. rewrite Z.eqb_refl in H.
-    match type of H with context [process_events ?S0] => destruct (process_events S0) as [[y|] s1] eqn:E end; inv_pair H.
-    + unfold process_events in E. pose proof (process_frame2 _ _ _ _ E) as F. simpl in F.
-      assert (Inv (mkSt (connected s) (cwait s) (pings s) (closed s) (futs s) None None [] (ttask s) (soon s)
-                        (readers s) (wclosing s) (evq s ++ evs) (dirty s))) as I0 by exact I.
-      destruct (process_inv _ _ _ _ I0 E) as [A B].
-      split; [exact A|]. split.
-      * eapply process_no_timer_none; exact E.
-      * split; [exact B|]. destruct F as [F1 [F2 [F3 [F4 [F5 F6]]]]].
-        unfold TimerOk, SoonOk in *. rewrite F1, F2, F3, F4, F5, F6. simpl. split; [split; [reflexivity|discriminate]|exact SO].
-    + unfold process_events in E. pose proof (process_frame2 _ _ _ _ E) as F. simpl in F.
-      assert (Inv (mkSt (connected s) (cwait s) (pings s) (closed s) (futs s) None None [] (ttask s) (soon s)
-                        (readers s) (wclosing s) (evq s ++ evs) (dirty s))) as I0 by exact I.
-      destruct (process_inv _ _ _ _ I0 E) as [A B].
-      split; [discriminate|]. split; [discriminate|].
-      destruct (transmit_frame s1 gt evs_tx) as [T1 [T2 T3]].
-      split; [apply (frame_inv s1 _ T1 T2 T3); assumption|].
-      split; [|apply transmit_soonok]. apply transmit_timer.
-      destruct F as [F1 [F2 [F3 _]]]. unfold TimerOk. rewrite F1, F2, F3. simpl. split; [reflexivity|discriminate].
+    rewrite L in M. destruct M as [->|[]]. rewrite (T w eq_refl).
+    split; [exact I|]. unfold TimerOk. simpl. rewrite L. simpl. rewrite Z.eqb_refl. split; [reflexivity|discriminate].
   - (* run_soon *)
-    destruct (soon s) as [|n] eqn:SN; inv_pair H.
-    + split; [ne_code|split; [ne_code|exact (conj I (conj TO SO))]].
-    + split; [discriminate|]. split; [discriminate|].
-      match goal with |- Good (transmit ?S0 _ _) => destruct (transmit_frame S0 gt evs_tx) as [T1 [T2 T3]] end.
-      split; [eapply frame_inv; [exact T1|exact T2|exact T3|exact I]|].
-      split; [apply transmit_timer; exact TO|apply transmit_soonok].
-  - (* transmit *)
-    inv_pair H. split; [discriminate|]. split; [discriminate|].
-    destruct (transmit_frame s gt evs_tx) as [T1 [T2 T3]].
-    split; [apply (frame_inv s _ T1 T2 T3); assumption|]. split; [apply transmit_timer; assumption|apply transmit_soonok].
-  - (* close *)
-    inv_pair H. split; [discriminate|]. split; [discriminate|].
-    destruct (transmit_frame s gt evs_tx) as [T1 [T2 T3]].
-    split; [apply (frame_inv s _ T1 T2 T3); assumption|]. split; [apply transmit_timer; assumption|apply transmit_soonok].
+    destruct (soon s) as [|n]; [split; [exact (conj I TO)|split; ne_code]|exact (conj I TO)].
+  - exact (conj I TO).
+  - exact (conj I TO).
   - (* ping *)
-    destruct (closed s); [inv_pair H; split; [ne_code|split; [ne_code|exact (conj I (conj TO SO))]]|].
-    inv_pair H. split; [discriminate|]. split; [discriminate|].
-    match goal with |- Good (transmit ?S0 _ _) => destruct (transmit_frame S0 gt evs_tx) as [T1 [T2 T3]]; set (s0 := S0) in * end.
-    split; [|split; [apply transmit_timer; exact TO|apply transmit_soonok]].
-    apply (frame_inv s0 _ T1 T2 T3). destruct I as [ND P].
+    destruct (closed s); [split; [exact (conj I TO)|split; ne_code]|].
+    split; [apply ping_inv; exact I|exact TO].
+  - (* wait_connected *)
+    destruct (cwait s) as [c|] eqn:C; [split; [exact (conj I TO)|split; ne_code]|].
+    destruct (connected s); [split; [exact (conj I TO)|split; discriminate]|].
+    destruct (closed s); [split; [exact (conj I TO)|split; ne_code]|].
+    split; [|split; discriminate]. split; [|exact TO]. destruct I as [ND P].
     assert (forall j, In j (refs s) -> (j < length (futs s))%nat) as LT.
     { intros j Hj. apply P in Hj. apply nth_error_Some. congruence. }
-    unfold Inv, refs in *. subst s0. simpl. split.
-    + apply NoDup_app_remove_l in ND as ND2.
-      assert (~ In (length (futs s)) (map snd (pings s))) as NI.
-      { intros X. assert (length (futs s) < length (futs s))%nat; [apply LT; apply in_or_app; auto|lia]. }
-      destruct (cwait s) as [c|]; simpl in *; [|apply ping_set_nodup; assumption].
-      inversion ND as [|? ? N1 N2]; subst. constructor; [|apply ping_set_nodup; assumption].
-      intros X. apply ping_set_in in X. destruct X as [X|X]; [|tauto].
-      assert (c < length (futs s))%nat by (apply LT; auto). lia.
-    + intros j Hj. apply in_app_or in Hj. destruct Hj as [Hj|Hj].
-      * rewrite nth_error_app1; [apply P; apply in_or_app; auto|apply LT; apply in_or_app; auto].
-      * apply ping_set_in in Hj. destruct Hj as [->|Hj].
-        -- rewrite nth_error_app2 by lia. rewrite Nat.sub_diag. reflexivity.
-        -- rewrite nth_error_app1; [apply P; apply in_or_app; auto|apply LT; apply in_or_app; auto].
-  - (* wait_connected *)
-    destruct (cwait s) as [c|] eqn:C; [inv_pair H; split; [ne_code|split; [ne_code|exact (conj I (conj TO SO))]]|].
-    destruct (connected s); [inv_pair H; split; [discriminate|split; [discriminate|exact (conj I (conj TO SO))]]|].
-    destruct (closed s); [inv_pair H; split; [ne_code|split; [ne_code|exact (conj I (conj TO SO))]]|].
-    inv_pair H. split; [discriminate|]. split; [discriminate|].
-    + split; [|split; assumption]. destruct I as [ND P].
-      assert (forall j, In j (refs s) -> (j < length (futs s))%nat) as LT.
-      { intros j Hj. apply P in Hj. apply nth_error_Some. congruence. }
-      unfold Inv, refs in *. rewrite C in *. simpl in *. split.
-      * constructor; [|assumption]. intros X. apply LT in X. lia.
-      * intros j [<-|Hj].
-        -- rewrite nth_error_app2 by lia. rewrite Nat.sub_diag. reflexivity.
-        -- rewrite nth_error_app1; [apply P; assumption|apply LT; assumption].
+    unfold Inv, refs in *. rewrite C in *. simpl in *. split.
+    * constructor; [|assumption]. intros X. apply LT in X. lia.
+    * intros j [<-|Hj].
+      -- rewrite nth_error_app2 by lia. rewrite Nat.sub_diag. reflexivity.
+      -- rewrite nth_error_app1; [apply P; assumption|apply LT; assumption].
   - (* write *)
-    inv_pair H. split; [discriminate|]. split; [discriminate|].
+    split; [|split; discriminate].
     destruct (transmit_soon_frame (set_dirty s)) as [T1 [T2 T3]].
-    split; [apply (frame_inv (set_dirty s) _ T1 T2 T3); exact I|]. split.
-    + unfold TimerOk, transmit_soon, set_dirty in *. destruct (ttask s); simpl; exact TO.
-    + unfold SoonOk, transmit_soon, set_dirty in *. simpl. destruct (ttask s) eqn:T; simpl; [tauto|]. split; intros; lia.
+    split; [apply (frame_inv (set_dirty s) _ T1 T2 T3); exact I|].
+    unfold TimerOk, transmit_soon, set_dirty in *. destruct (ttask s); simpl; exact TO.
   - (* write_eof *)
-    destruct (memz sid (wclosing s)); inv_pair H; (split; [discriminate|]; split; [discriminate|]).
-    + exact (conj I (conj TO SO)).
-    + match goal with |- Good (transmit_soon ?S0) => destruct (transmit_soon_frame S0) as [T1 [T2 T3]]; set (s0 := S0) in * end.
-      split; [apply (frame_inv s0 _ T1 T2 T3); exact I|]. split.
-      * unfold TimerOk, transmit_soon in *. subst s0. simpl. destruct (ttask s); simpl; exact TO.
-      * unfold SoonOk, transmit_soon in *. subst s0. simpl. destruct (ttask s) eqn:T; simpl; [tauto|]. split; intros; lia.
+    destruct (memz sid (wclosing s)); (split; [|split; discriminate]); [exact (conj I TO)|].
+    match goal with |- IT (transmit_soon ?S0) => destruct (transmit_soon_frame S0) as [T1 [T2 T3]]; set (s0 := S0) in * end.
+    split; [apply (frame_inv s0 _ T1 T2 T3); exact I|].
+    unfold TimerOk, transmit_soon in *. subst s0. simpl. destruct (ttask s); simpl; exact TO.
   - (* create_stream *)
-    inv_pair H. split; [discriminate|]. split; [discriminate|]. exact (conj I (conj TO SO)).
+    split; [exact (conj I TO)|split; discriminate].
   - (* transmit_soon *)
-    inv_pair H. split; [discriminate|]. split; [discriminate|].
+    split; [|split; discriminate].
     destruct (transmit_soon_frame s) as [T1 [T2 T3]].
-    split; [apply (frame_inv s _ T1 T2 T3); exact I|]. split.
-    + unfold TimerOk, transmit_soon in *. destruct (ttask s); simpl; exact TO.
-    + apply transmit_soon_ok; assumption.
+    split; [apply (frame_inv s _ T1 T2 T3); exact I|].
+    unfold TimerOk, transmit_soon in *. destruct (ttask s); simpl; exact TO.
+Qed.
+
+Lemma step_it : forall fx s o x out s', IT s -> step fx s o = (x, out, s') -> IT s' /\ Qcodes x.
+Proof.
+  intros fx s o x out s' G H.
+  eapply (step_via IT Qcodes process_events_it transmit_core_it); [split; discriminate| |exact H].
+  apply prepare_it. exact G.
+Qed.
+
+Lemma process_events_soon : forall s x s', SoonOk s -> process_events s = (x, s') -> SoonOk s'.
+Proof.
+  intros s x s' SO E. unfold process_events in E. apply process_frame2 in E.
+  destruct E as [_ [_ [_ [F4 [F5 F6]]]]]. unfold SoonOk in *. rewrite F4, F5, F6. exact SO.
+Qed.
+
+Lemma prepare_soon : forall s o, SoonOk s ->
+  match prepare s o with PDone _ _ s0 => SoonOk s0 | PGo _ s0 pe _ _ => pe = true -> SoonOk s0 end.
+Proof.
+  intros s o SO. destruct o; simpl.
+  - intros _. exact SO.
+  - destruct (memz w (ltimers s)); simpl; [|exact SO]. destruct (timer_at s); [intros _|]; exact SO.
+  - destruct (soon s); [exact SO|discriminate].
+  - discriminate.
+  - discriminate.
+  - destruct (closed s); [exact SO|discriminate].
+  - destruct (cwait s); [exact SO|]. destruct (connected s); [exact SO|]. destruct (closed s); exact SO.
+  - unfold SoonOk, transmit_soon, set_dirty in *. simpl. destruct (ttask s) eqn:T; simpl; [tauto|]. split; intros; lia.
+  - destruct (memz sid (wclosing s)); [exact SO|].
+    unfold SoonOk, transmit_soon in *. simpl. destruct (ttask s) eqn:T; simpl; [tauto|]. split; intros; lia.
+  - exact SO.
+  - apply transmit_soon_ok; assumption.
+Qed.
+
+Lemma step_soon : forall fx s o x out s', SoonOk s -> step fx s o = (x, out, s') -> SoonOk s'.
+Proof.
+  intros fx s o x out s' SO H. rewrite step_unfold in H. pose proof (prepare_soon s o SO) as PS.
+  destruct (prepare s o) as [x0 extra s0|extra s0 pe gt etx].
+  - inv_pair H. exact PS.
+  - assert (forall s1,
+              (if fx then let '(x2, s3) := process_events (transmit_core s1 gt etx) in (x2, extra, s3)
+               else (None, extra, transmit_core s1 gt etx)) = (x, out, s') -> SoonOk s') as K.
+    { intros s1 H1. destruct fx.
+      - destruct (process_events (transmit_core s1 gt etx)) as [x2 s3] eqn:E2. inv_pair H1.
+        eapply process_events_soon; [|exact E2]. apply transmit_soonok.
+      - inv_pair H1. apply transmit_soonok. }
+    destruct pe.
+    + destruct (process_events s0) as [[y|] s1] eqn:E.
+      * inv_pair H. eapply process_events_soon; [|exact E]. apply PS. reflexivity.
+      * apply (K s1). exact H.
+    + apply (K s0). exact H.
+Qed.
+
+Lemma step_good : forall fx s o x out s', Good s -> step fx s o = (x, out, s') ->
+  x <> Some X_INVALID_STATE /\ x <> Some X_TIMER_NONE /\ Good s'.
+Proof.
+  intros fx s o x out s' [I [TO SO]] H.
+  destruct (step_it fx s o x out s' (conj I TO) H) as [[I' TO'] [Q1 Q2]].
+  split; [exact Q1|]. split; [exact Q2|]. split; [exact I'|]. split; [exact TO'|].
+  eapply step_soon; eauto.
 Qed.
 
 Lemma good_init : Good st_init.
@@ -575,145 +664,199 @@ Proof.
   unfold Good, Inv, TimerOk, SoonOk, refs. simpl. repeat split; try constructor; try discriminate; tauto.
 Qed.
 
-Lemma run_good : forall ops s, Good s -> Good (run s ops).
+Lemma run_good : forall fx ops s, Good s -> Good (run fx s ops).
 Proof.
   induction ops as [|o t IH]; intros s G; simpl; [assumption|].
-  destruct (step s o) as [[x out] s'] eqn:E. apply IH. eapply step_good; eauto.
+  destruct (step fx s o) as [[x out] s'] eqn:E. apply IH. eapply step_good; eauto.
 Qed.
 
-(* ---------- theorems ------------------------------------------------------------------------------- *)
+(* ---------- theorems (each for both values of fx: the tree without and with the repair of F4) ---------- *)
 (* no future is ever resolved twice, whatever the order of callbacks, API calls and events *)
-Lemma waiter_never_resolved_twice_l : forall ops o,
-  fst (fst (step (run st_init ops) o)) <> Some X_INVALID_STATE.
+Lemma waiter_never_resolved_twice_l : forall fx ops o,
+  fst (fst (step fx (run fx st_init ops) o)) <> Some X_INVALID_STATE.
 Proof.
-  intros ops o. destruct (step (run st_init ops) o) as [[x out] s'] eqn:E. simpl.
+  intros fx ops o. destruct (step fx (run fx st_init ops) o) as [[x out] s'] eqn:E. simpl.
   eapply step_good; [|exact E]. apply run_good. apply good_init.
 Qed.
 
 (* the loop never holds two _handle_timer handles, _handle_timer never meets _timer_at = None *)
-Lemma timer_single_l : forall ops,
-  let s := run st_init ops in
+Lemma timer_single_l : forall fx ops,
+  let s := run fx st_init ops in
   ltimers s = match timer s with Some w => [w] | None => [] end /\
   (forall w, timer s = Some w -> timer_at s = Some w) /\
-  forall o, fst (fst (step s o)) <> Some X_TIMER_NONE.
+  forall o, fst (fst (step fx s o)) <> Some X_TIMER_NONE.
 Proof.
-  intros ops s. pose proof (run_good ops st_init good_init) as G. fold s in G.
+  intros fx ops s. pose proof (run_good fx ops st_init good_init) as G. fold s in G.
   destruct G as [I [[L T] SO]]. split; [exact L|]. split; [exact T|].
-  intros o. destruct (step s o) as [[x out] s'] eqn:E. simpl.
+  intros o. destruct (step fx s o) as [[x out] s'] eqn:E. simpl.
   eapply step_good; [|exact E]. split; [exact I|]. split; [split; assumption|exact SO].
 Qed.
 
-Lemma transmit_not_lost_l : forall ops,
-  let s := run st_init ops in
+(* running the deferred transmit always transmits (the datagrams leave and dirty is reset), also when -- with
+   the repair -- a handler raises during the drain that follows; without the repair nothing can raise *)
+Lemma transmit_not_lost_l : forall fx ops,
+  let s := run fx st_init ops in
   (dirty s = true -> soon s <> O) /\
-  (soon s <> O -> forall gt e, exists out s', step s (ORunSoon gt e) = (None, out, s') /\ dirty s' = false).
+  (soon s <> O -> forall gt e, exists x out s', step fx s (ORunSoon gt e) = (x, out, s') /\ dirty s' = false /\
+                                              (fx = false -> x = None)).
 Proof.
-  intros ops s. pose proof (run_good ops st_init good_init) as [_ [_ [_ D]]]. fold s in D. split; [exact D|].
-  intros N gt e. simpl. destruct (soon s) as [|n]; [tauto|]. eexists. eexists. split; [reflexivity|].
-  unfold transmit. simpl. destruct (timer s); [destruct (negb (oz_eqb (timer_at s) gt))|]; destruct gt; reflexivity.
+  intros fx ops s. pose proof (run_good fx ops st_init good_init) as [_ [_ [_ D]]]. fold s in D. split; [exact D|].
+  intros N gt e. rewrite step_unfold. simpl. destruct (soon s) as [|n]; [tauto|]. simpl.
+  destruct fx.
+  - match goal with |- context [process_events ?S0] => destruct (process_events S0) as [x2 s3] eqn:E end.
+    exists x2, [], s3. split; [reflexivity|]. split; [|discriminate].
+    unfold process_events in E. apply process_frame2 in E. destruct E as [_ [_ [_ [_ [_ F6]]]]].
+    rewrite F6. apply transmit_dirty.
+  - eexists. eexists. eexists. split; [reflexivity|]. split; [apply transmit_dirty|reflexivity].
 Qed.
 
 (* uids are fresh: id(waiter) differs from the uid of every future still in _ping_waiters *)
-Fixpoint uids_fresh (s : st) (ops : list op) : Prop :=
+Fixpoint uids_fresh (fx : bool) (s : st) (ops : list op) : Prop :=
   match ops with
   | [] => True
   | o :: t =>
       (match o with OPing uid _ _ => ping_get uid (pings s) = None | _ => True end) /\
-      uids_fresh (snd (step s o)) t
+      uids_fresh fx (snd (step fx s o)) t
   end.
 
-Lemma step_orphan : forall s o x out s', Good s -> NoOrphan s ->
-  (match o with OPing uid _ _ => ping_get uid (pings s) = None | _ => True end) ->
-  step s o = (x, out, s') -> NoOrphan s'.
+Definition IO (s : st) : Prop := Inv s /\ NoOrphan s.
+
+Lemma process_events_io : forall s x s', IO s -> process_events s = (x, s') -> IO s' /\ True.
 Proof.
-  intros s o x out s' [I _] NO F H. destruct o; simpl in H.
-  - destruct (process_events (with_evq s (evq s ++ evs))) as [[y|] s1] eqn:E; inv_pair H.
-    + eapply process_orphan; [| |exact E]; [apply with_evq_inv|apply with_evq_orphan]; assumption.
-    + destruct (transmit_frame s1 gt evs_tx) as [T1 [T2 T3]]. apply (frame_inv s1 _ T1 T2 T3).
-      eapply process_orphan; [| |exact E]; [apply with_evq_inv|apply with_evq_orphan]; assumption.
-  - destruct (memz w (ltimers s)); simpl in H; [|inv_pair H; assumption].
-    destruct (timer_at s); [|inv_pair H; exact NO].
-    match type of H with context [process_events ?S0] => destruct (process_events S0) as [[y|] s1] eqn:E end; inv_pair H.
-    + eapply process_orphan; [| |exact E]; [exact I|exact NO].
-    + destruct (transmit_frame s1 gt evs_tx) as [T1 [T2 T3]]. apply (frame_inv s1 _ T1 T2 T3).
-      eapply process_orphan; [| |exact E]; [exact I|exact NO].
-  - destruct (soon s); inv_pair H; [assumption|].
-    match goal with |- NoOrphan (transmit ?S0 _ _) => destruct (transmit_frame S0 gt evs_tx) as [T1 [T2 T3]] end.
-    eapply frame_inv; [exact T1|exact T2|exact T3|exact NO].
-  - inv_pair H. destruct (transmit_frame s gt evs_tx) as [T1 [T2 T3]]. apply (frame_inv s _ T1 T2 T3); assumption.
-  - inv_pair H. destruct (transmit_frame s gt evs_tx) as [T1 [T2 T3]]. apply (frame_inv s _ T1 T2 T3); assumption.
-  - destruct (closed s); [inv_pair H; assumption|]. inv_pair H.
-    match goal with |- NoOrphan (transmit ?S0 _ _) => destruct (transmit_frame S0 gt evs_tx) as [T1 [T2 T3]]; set (s0 := S0) in * end.
-    apply (frame_inv s0 _ T1 T2 T3). unfold NoOrphan, refs in *. subst s0. simpl. intros j Hj.
+  intros s x s' [I NO] E. unfold process_events in E. split; [|exact Logic.I]. split.
+  - eapply process_inv; eauto.
+  - eapply process_orphan; eauto.
+Qed.
+
+Lemma transmit_core_io : forall s gt e, IO s -> IO (transmit_core s gt e).
+Proof.
+  intros s gt e [I NO]. destruct (transmit_frame s gt e) as [T1 [T2 T3]].
+  split; apply (frame_inv s _ T1 T2 T3); assumption.
+Qed.
+
+Lemma prepare_orphan : forall s o, Inv s -> NoOrphan s ->
+  (match o with OPing uid _ _ => ping_get uid (pings s) = None | _ => True end) ->
+  NoOrphan (match prepare s o with PDone _ _ s0 => s0 | PGo _ s0 _ _ _ => s0 end).
+Proof.
+  intros s o I NO F. destruct o; simpl.
+  - apply with_evq_orphan; exact NO.
+  - destruct (memz w (ltimers s)); simpl; [|exact NO]. destruct (timer_at s); exact NO.
+  - destruct (soon s); exact NO.
+  - exact NO.
+  - exact NO.
+  - destruct (closed s); [exact NO|].
+    unfold NoOrphan, refs in *. simpl. intros j Hj.
     apply in_or_app. destruct (Nat.lt_ge_cases j (length (futs s))) as [LT|GE].
     + rewrite nth_error_app1 in Hj by assumption. apply NO in Hj. apply in_app_or in Hj.
       destruct Hj; [auto|right; apply ping_set_fresh_in; auto].
     + right. apply ping_set_fresh_in; [assumption|]. left.
       assert (j < length (futs s ++ [FPending]))%nat as L by (apply nth_error_Some; congruence).
       rewrite app_length in L. simpl in L. lia.
-  - destruct (cwait s) as [c|] eqn:C; [inv_pair H; assumption|].
-    destruct (connected s); [inv_pair H; assumption|].
-    destruct (closed s); inv_pair H; [assumption|].
-    unfold NoOrphan, refs in *. rewrite C in *. simpl in *. intros j Hj.
+  - destruct (cwait s) as [c|] eqn:C; [exact NO|].
+    destruct (connected s); [exact NO|].
+    destruct (closed s); [exact NO|].
+    unfold NoOrphan, refs in *. simpl. rewrite C in *. simpl in *. intros j Hj.
     destruct (Nat.lt_ge_cases j (length (futs s))) as [LT|GE].
     + rewrite nth_error_app1 in Hj by assumption. right. apply NO. assumption.
     + left. assert (j < length (futs s ++ [FPending]))%nat as L by (apply nth_error_Some; congruence).
       rewrite app_length in L. simpl in L. lia.
-  - inv_pair H. destruct (transmit_soon_frame (set_dirty s)) as [T1 [T2 T3]].
+  - destruct (transmit_soon_frame (set_dirty s)) as [T1 [T2 T3]].
     apply (frame_inv (set_dirty s) _ T1 T2 T3). exact NO.
-  - destruct (memz sid (wclosing s)); inv_pair H; [assumption|].
+  - destruct (memz sid (wclosing s)); [exact NO|].
     match goal with |- NoOrphan (transmit_soon ?S0) => destruct (transmit_soon_frame S0) as [T1 [T2 T3]]; set (s0 := S0) in * end.
     apply (frame_inv s0 _ T1 T2 T3). exact NO.
-  - inv_pair H. exact NO.
-  - inv_pair H. destruct (transmit_soon_frame s) as [T1 [T2 T3]]. apply (frame_inv s _ T1 T2 T3). exact NO.
+  - exact NO.
+  - destruct (transmit_soon_frame s) as [T1 [T2 T3]]. apply (frame_inv s _ T1 T2 T3). exact NO.
 Qed.
 
-Lemma run_orphan : forall ops s, Good s -> NoOrphan s -> uids_fresh s ops -> NoOrphan (run s ops).
+Lemma prepare_inv : forall s o, IT s -> Inv (match prepare s o with PDone _ _ s0 => s0 | PGo _ s0 _ _ _ => s0 end).
+Proof.
+  intros s o G. pose proof (prepare_it s o G) as K. destruct (prepare s o); [apply K|apply K].
+Qed.
+
+Lemma step_orphan : forall fx s o x out s', Good s -> NoOrphan s ->
+  (match o with OPing uid _ _ => ping_get uid (pings s) = None | _ => True end) ->
+  step fx s o = (x, out, s') -> NoOrphan s'.
+Proof.
+  intros fx s o x out s' [I [TO _]] NO F H.
+  pose proof (prepare_orphan s o I NO F) as PO. pose proof (prepare_inv s o (conj I TO)) as PI.
+  apply (step_via IO (fun _ => True) process_events_io transmit_core_io Logic.I fx s o x out s'); [|exact H].
+  destruct (prepare s o); [split; [split; assumption|exact Logic.I]|split; assumption].
+Qed.
+
+Lemma run_orphan : forall fx ops s, Good s -> NoOrphan s -> uids_fresh fx s ops -> NoOrphan (run fx s ops).
 Proof.
   induction ops as [|o t IH]; intros s G NO F; simpl; [assumption|].
-  destruct F as [F1 F2]. destruct (step s o) as [[x out] s'] eqn:E. simpl in F2. apply IH.
+  destruct F as [F1 F2]. destruct (step fx s o) as [[x out] s'] eqn:E. simpl in F2. apply IH.
   - eapply step_good; eauto.
   - eapply step_orphan; eauto.
   - assumption.
 Qed.
 
+(* a step that went through transmit() and returned normally: what it did, as equations *)
+Lemma step_go_ok : forall fx s o out s' extra s0 pe gt etx,
+  prepare s o = PGo extra s0 pe gt etx -> step fx s o = (None, out, s') ->
+  exists s1, (if pe then process_events s0 else (None, s0)) = (None, s1) /\
+             (if fx then process_events (transmit_core s1 gt etx) = (None, s') else s' = transmit_core s1 gt etx).
+Proof.
+  intros fx s o out s' extra s0 pe gt etx PR H. rewrite step_unfold, PR in H.
+  destruct (if pe then process_events s0 else (None, s0)) as [[y|] s1] eqn:E; [discriminate|].
+  exists s1. split; [reflexivity|]. destruct fx.
+  - destruct (process_events (transmit_core s1 gt etx)) as [x2 s3]. inv_pair H. reflexivity.
+  - inv_pair H. reflexivity.
+Qed.
+
 (* every pending waiter is resolved by the time ConnectionTerminated has been processed: after a
    datagram or timer callback that processed ConnectionTerminated (to the end of its event loop),
    no future created so far is pending. *)
-Lemma waiter_all_resolved_at_termination_l : forall ops evs gt etx out s',
-  uids_fresh st_init ops ->
-  let s := run st_init ops in
-  In (EvTerminated 0) (evq s ++ evs) ->
-  step s (ORecv evs gt etx) = (None, out, s') ->
-  forall i, nth_error (futs s') i <> Some FPending.
+Lemma all_done_after : forall (fx : bool) s0 gt etx s1 s', Inv s0 -> NoOrphan s0 -> In (EvTerminated 0) (evq s0) ->
+  process_events s0 = (None, s1) ->
+  (if fx return Prop then process_events (transmit_core s1 gt etx) = (None, s') else s' = transmit_core s1 gt etx) ->
+  AllDone s'.
 Proof.
-  intros ops evs gt etx out s' F s IN H.
-  pose proof (run_good ops st_init good_init) as G. fold s in G.
-  assert (NoOrphan s) as NO.
-  { apply run_orphan; [apply good_init| |assumption]. unfold NoOrphan. simpl. intros [|i]; discriminate. }
-  simpl in H. destruct (process_events (with_evq s (evq s ++ evs))) as [[y|] s1] eqn:E; inv_pair H.
-  destruct (transmit_frame s1 gt etx) as [T1 [T2 T3]]. apply (frame_inv s1 _ T1 T2 T3).
-  unfold process_events in E. simpl in E.
-  eapply process_terminated; [| |exact IN|exact E]; [apply with_evq_inv; apply G|apply with_evq_orphan; exact NO].
+  intros fx s0 gt etx s1 s' I NO IN E1 E2.
+  assert (AllDone s1) as A1 by (eapply process_terminated; [exact I|exact NO|exact IN|exact E1]).
+  assert (AllDone (transmit_core s1 gt etx)) as A2.
+  { destruct (transmit_frame s1 gt etx) as [T1 [T2 T3]]. apply (frame_inv s1 _ T1 T2 T3). exact A1. }
+  destruct fx; [|subst s'; exact A2]. eapply process_alldone; [exact A2|exact E2].
 Qed.
 
-Lemma waiter_all_resolved_at_termination_timer_l : forall ops w now evs gt etx out s',
-  uids_fresh st_init ops ->
-  let s := run st_init ops in
+Lemma waiter_all_resolved_at_termination_l : forall fx ops evs gt etx out s',
+  uids_fresh fx st_init ops ->
+  let s := run fx st_init ops in
   In (EvTerminated 0) (evq s ++ evs) ->
-  step s (OTimer w now evs gt etx) = (None, out, s') ->
+  step fx s (ORecv evs gt etx) = (None, out, s') ->
   forall i, nth_error (futs s') i <> Some FPending.
 Proof.
-  intros ops w now evs gt etx out s' F s IN H.
-  pose proof (run_good ops st_init good_init) as G. fold s in G.
+  intros fx ops evs gt etx out s' F s IN H.
+  pose proof (run_good fx ops st_init good_init) as G. fold s in G.
   assert (NoOrphan s) as NO.
   { apply run_orphan; [apply good_init| |assumption]. unfold NoOrphan. simpl. intros [|i]; discriminate. }
-  simpl in H. destruct (memz w (ltimers s)); simpl in H; [|inv_pair H].
-  destruct (timer_at s); [|inv_pair H].
-  match type of H with context [process_events ?S0] => destruct (process_events S0) as [[y|] s1] eqn:E end; inv_pair H.
-  destruct (transmit_frame s1 gt etx) as [T1 [T2 T3]]. apply (frame_inv s1 _ T1 T2 T3).
-  unfold process_events in E. simpl in E.
-  eapply process_terminated; [| |exact IN|exact E]; [apply G|exact NO].
+  destruct (step_go_ok fx s (ORecv evs gt etx) out s' [] (with_evq s (evq s ++ evs)) true gt etx eq_refl H) as [s1 [E1 E2]].
+  eapply (all_done_after fx); [| | |exact E1|exact E2].
+  - apply with_evq_inv. apply G.
+  - apply with_evq_orphan. exact NO.
+  - exact IN.
+Qed.
+
+Lemma waiter_all_resolved_at_termination_timer_l : forall fx ops w now evs gt etx out s',
+  uids_fresh fx st_init ops ->
+  let s := run fx st_init ops in
+  In (EvTerminated 0) (evq s ++ evs) ->
+  step fx s (OTimer w now evs gt etx) = (None, out, s') ->
+  forall i, nth_error (futs s') i <> Some FPending.
+Proof.
+  intros fx ops w now evs gt etx out s' F s IN H.
+  pose proof (run_good fx ops st_init good_init) as G. fold s in G.
+  assert (NoOrphan s) as NO.
+  { apply run_orphan; [apply good_init| |assumption]. unfold NoOrphan. simpl. intros [|i]; discriminate. }
+  destruct (prepare s (OTimer w now evs gt etx)) as [x0 extra0 s0|extra0 s0 pe gt0 etx0] eqn:PR.
+  { rewrite step_unfold, PR in H. inv_pair H. simpl in PR.
+    destruct (memz w (ltimers s)); simpl in PR; [|discriminate]. destruct (timer_at s); discriminate. }
+  destruct (step_go_ok fx s _ out s' _ _ _ _ _ PR H) as [s1 [E1 E2]].
+  simpl in PR. destruct (memz w (ltimers s)); simpl in PR; [|discriminate].
+  destruct (timer_at s); [|discriminate]. inv_pair PR.
+  eapply (all_done_after fx); [| | |exact E1|exact E2]; [apply G|exact NO|exact IN].
 Qed.
 
 (* ---------- after termination ---------------------------------------------------------------------------
@@ -764,49 +907,60 @@ Proof.
       * eapply handle_event_cinv; eauto.
 Qed.
 
-Lemma transmit_closed : forall s gt e, closed (transmit s gt e) = closed s.
-Proof.
-  intros. unfold transmit. destruct (timer s); [destruct (negb (oz_eqb (timer_at s) gt))|]; destruct gt; reflexivity.
-Qed.
-Lemma transmit_soon_closed : forall s, closed (transmit_soon s) = closed s.
-Proof. intros. unfold transmit_soon. destruct (ttask s); reflexivity. Qed.
-
 Lemma frame_cinv : forall s s', futs s' = futs s -> closed s' = closed s -> CInv s -> CInv s'.
 Proof. intros s s' A B. unfold CInv, AllDone. rewrite A, B. tauto. Qed.
 
-Lemma step_cinv : forall s o x out s', Good s -> NoOrphan s -> CInv s -> step s o = (x, out, s') -> CInv s'.
+Definition IOC (s : st) : Prop := Inv s /\ NoOrphan s /\ CInv s.
+
+Lemma process_events_ioc : forall s x s', IOC s -> process_events s = (x, s') -> IOC s' /\ True.
 Proof.
-  intros s o x out s' [I _] NO C H. destruct o; simpl in H.
-  - destruct (process_events (with_evq s (evq s ++ evs))) as [[y|] s1] eqn:E; inv_pair H.
-    + eapply process_cinv; [| | |exact E]; [apply with_evq_inv|apply with_evq_orphan|apply with_evq_cinv]; assumption.
-    + apply (frame_cinv s1); [apply transmit_frame|apply transmit_closed|].
-      eapply process_cinv; [| | |exact E]; [apply with_evq_inv|apply with_evq_orphan|apply with_evq_cinv]; assumption.
-  - destruct (memz w (ltimers s)); simpl in H; [|inv_pair H; assumption].
-    destruct (timer_at s); [|inv_pair H; exact C].
-    match type of H with context [process_events ?S0] => destruct (process_events S0) as [[y|] s1] eqn:E end; inv_pair H.
-    + eapply process_cinv; [| | |exact E]; [exact I|exact NO|exact C].
-    + apply (frame_cinv s1); [apply transmit_frame|apply transmit_closed|].
-      eapply process_cinv; [| | |exact E]; [exact I|exact NO|exact C].
-  - destruct (soon s); inv_pair H; [assumption|].
-    match goal with |- CInv (transmit ?S0 _ _) => apply (frame_cinv S0); [apply transmit_frame|apply transmit_closed|exact C] end.
-  - inv_pair H. apply (frame_cinv s); [apply transmit_frame|apply transmit_closed|exact C].
-  - inv_pair H. apply (frame_cinv s); [apply transmit_frame|apply transmit_closed|exact C].
-  - destruct (closed s) eqn:Cl; inv_pair H; [assumption|].
-    intros X. rewrite transmit_closed in X. simpl in X. congruence.
-  - destruct (cwait s); [inv_pair H; assumption|]. destruct (connected s); [inv_pair H; assumption|].
-    destruct (closed s) eqn:Cl; inv_pair H; [assumption|]. intros X. simpl in X. congruence.
-  - inv_pair H. apply (frame_cinv (set_dirty s)); [apply transmit_soon_frame|apply transmit_soon_closed|exact C].
-  - destruct (memz sid (wclosing s)); inv_pair H; [assumption|].
-    match goal with |- CInv (transmit_soon ?S0) => apply (frame_cinv S0); [apply transmit_soon_frame|apply transmit_soon_closed|exact C] end.
-  - inv_pair H. exact C.
-  - inv_pair H. apply (frame_cinv s); [apply transmit_soon_frame|apply transmit_soon_closed|exact C].
+  intros s x s' [I [NO C]] E. unfold process_events in E. split; [|exact Logic.I]. split; [|split].
+  - eapply process_inv; eauto.
+  - eapply process_orphan; eauto.
+  - eapply process_cinv; eauto.
 Qed.
 
-Lemma run_all : forall ops s, Good s -> NoOrphan s -> CInv s -> uids_fresh s ops ->
-  Good (run s ops) /\ NoOrphan (run s ops) /\ CInv (run s ops).
+Lemma transmit_core_ioc : forall s gt e, IOC s -> IOC (transmit_core s gt e).
+Proof.
+  intros s gt e [I [NO C]]. destruct (transmit_frame s gt e) as [T1 [T2 T3]].
+  split; [apply (frame_inv s _ T1 T2 T3); assumption|]. split; [apply (frame_inv s _ T1 T2 T3); assumption|].
+  apply (frame_cinv s); [exact T1|apply transmit_closed|exact C].
+Qed.
+
+Lemma prepare_cinv : forall s o, CInv s -> CInv (match prepare s o with PDone _ _ s0 => s0 | PGo _ s0 _ _ _ => s0 end).
+Proof.
+  intros s o C. destruct o; simpl.
+  - apply with_evq_cinv; exact C.
+  - destruct (memz w (ltimers s)); simpl; [|exact C]. destruct (timer_at s); exact C.
+  - destruct (soon s); exact C.
+  - exact C.
+  - exact C.
+  - destruct (closed s) eqn:Cl; [exact C|]. intros X. simpl in X. congruence.
+  - destruct (cwait s); [exact C|]. destruct (connected s); [exact C|].
+    destruct (closed s) eqn:Cl; [exact C|]. intros X. simpl in X. congruence.
+  - apply (frame_cinv (set_dirty s)); [apply transmit_soon_frame|apply transmit_soon_closed|exact C].
+  - destruct (memz sid (wclosing s)); [exact C|].
+    match goal with |- CInv (transmit_soon ?S0) => apply (frame_cinv S0); [apply transmit_soon_frame|apply transmit_soon_closed|exact C] end.
+  - exact C.
+  - apply (frame_cinv s); [apply transmit_soon_frame|apply transmit_soon_closed|exact C].
+Qed.
+
+Lemma step_cinv : forall fx s o x out s', Good s -> NoOrphan s -> CInv s ->
+  (match o with OPing uid _ _ => ping_get uid (pings s) = None | _ => True end) ->
+  step fx s o = (x, out, s') -> CInv s'.
+Proof.
+  intros fx s o x out s' [I [TO _]] NO C F H.
+  pose proof (prepare_orphan s o I NO F) as PO. pose proof (prepare_inv s o (conj I TO)) as PI.
+  pose proof (prepare_cinv s o C) as PC.
+  apply (step_via IOC (fun _ => True) process_events_ioc transmit_core_ioc Logic.I fx s o x out s'); [|exact H].
+  destruct (prepare s o); [split; [exact (conj PI (conj PO PC))|exact Logic.I]|exact (conj PI (conj PO PC))].
+Qed.
+
+Lemma run_all : forall fx ops s, Good s -> NoOrphan s -> CInv s -> uids_fresh fx s ops ->
+  Good (run fx s ops) /\ NoOrphan (run fx s ops) /\ CInv (run fx s ops).
 Proof.
   induction ops as [|o t IH]; intros s G NO C F; simpl; [auto|].
-  destruct F as [F1 F2]. destruct (step s o) as [[x out] s'] eqn:E. simpl in F2. apply IH.
+  destruct F as [F1 F2]. destruct (step fx s o) as [[x out] s'] eqn:E. simpl in F2. apply IH.
   - eapply step_good; eauto.
   - eapply step_orphan; eauto.
   - eapply step_cinv; eauto.
@@ -814,10 +968,10 @@ Proof.
 Qed.
 
 (* once the closed event is set -- at whatever point of whatever schedule -- no waiter is pending, ever again *)
-Lemma no_waiter_pending_once_closed_l : forall ops, uids_fresh st_init ops ->
-  closed (run st_init ops) = true -> forall i, nth_error (futs (run st_init ops)) i <> Some FPending.
+Lemma no_waiter_pending_once_closed_l : forall fx ops, uids_fresh fx st_init ops ->
+  closed (run fx st_init ops) = true -> forall i, nth_error (futs (run fx st_init ops)) i <> Some FPending.
 Proof.
-  intros ops F Cl. destruct (run_all ops st_init good_init) as [_ [_ C]]; try assumption.
+  intros fx ops F Cl. destruct (run_all fx ops st_init good_init) as [_ [_ C]]; try assumption.
   - unfold NoOrphan. simpl. intros [|i]; discriminate.
   - intros X. discriminate.
   - apply C. exact Cl.
@@ -826,29 +980,29 @@ Qed.
 (* ... because the API calls made on a closed protocol finish at once: ping() raises ConnectionError, creates
    no future and leaves the state untouched; wait_connected() returns (connected) or raises ConnectionError;
    create_stream() hands out a reader that is already at EOF *)
-Lemma api_after_termination_l : forall s, closed s = true ->
-  (forall uid gt e, step s (OPing uid gt e) = (Some X_CONNECTION_ERROR, [], s)) /\
-  (cwait s = None -> step s OWaitConnected = (if connected s then (None, [1], s) else (Some X_CONNECTION_ERROR, [], s))) /\
-  (forall sid out s', step s (OCreateStream sid) = (None, out, s') ->
+Lemma api_after_termination_l : forall fx s, closed s = true ->
+  (forall uid gt e, step fx s (OPing uid gt e) = (Some X_CONNECTION_ERROR, [], s)) /\
+  (cwait s = None -> step fx s OWaitConnected = (if connected s then (None, [1], s) else (Some X_CONNECTION_ERROR, [], s))) /\
+  (forall sid out s', step fx s (OCreateStream sid) = (None, out, s') ->
      exists r, rd_get sid (readers s') = Some r /\ rd_eof r = true /\ rd_buf r = []).
 Proof.
-  intros s Cl. split; [|split].
-  - intros. simpl. rewrite Cl. reflexivity.
-  - intros C. simpl. rewrite C, Cl. destruct (connected s); reflexivity.
-  - intros sid out s' H. simpl in H. inv_pair H. rewrite Cl. simpl.
+  intros fx s Cl. split; [|split].
+  - intros. rewrite step_unfold. simpl. rewrite Cl. reflexivity.
+  - intros C. rewrite step_unfold. simpl. rewrite C, Cl. destruct (connected s); reflexivity.
+  - intros sid out s' H. rewrite step_unfold in H. simpl in H. inv_pair H. rewrite Cl. simpl.
     exists (mkReader sid [] true). split; [|auto].
     induction (readers s) as [|r t IH]; simpl; [rewrite Z.eqb_refl; reflexivity|].
     destruct (rd_sid r =? sid) eqn:E; simpl; [rewrite Z.eqb_refl; reflexivity|]. rewrite E. exact IH.
 Qed.
 
 (* the former counter-example [recv [ConnectionTerminated]; ping] now ends with ConnectionError and no future *)
-Example late_ping_fails_at_once :
-  let s := run st_init [ORecv [EvTerminated 0] None []] in
-  closed s = true /\ step s (OPing 1 None []) = (Some X_CONNECTION_ERROR, [], s) /\ futs s = [].
-Proof. simpl. repeat split. Qed.
+Example late_ping_fails_at_once : forall fx,
+  let s := run fx st_init [ORecv [EvTerminated 0] None []] in
+  closed s = true /\ step fx s (OPing 1 None []) = (Some X_CONNECTION_ERROR, [], s) /\ futs s = [].
+Proof. intros [|]; vm_compute; repeat split. Qed.
 
 (* a non-trivial trace satisfying the freshness hypothesis *)
-Example uids_fresh_example :
-  uids_fresh st_init [OWaitConnected; OPing 7 (Some 5) []; OPing 8 (Some 5) []; ORecv [EvPingAck 7; EvHandshake] (Some 6) [];
+Example uids_fresh_example : forall fx,
+  uids_fresh fx st_init [OWaitConnected; OPing 7 (Some 5) []; OPing 8 (Some 5) []; ORecv [EvPingAck 7; EvHandshake] (Some 6) [];
                       OPing 7 None []; OTimer 6 6 [EvTerminated 0] None []].
-Proof. simpl. repeat split. Qed.
+Proof. intros [|]; vm_compute; repeat split. Qed.
